@@ -437,3 +437,30 @@ Theorem C10_next_message_id_is_source :
   forall s, c14_message_id.next_message_id {| c14_message_id.mmids_message_id := next_mid s |} = Ok ({| c14_message_id.mmids_message_id := next_mid (fst (_next_message_id s)) |}, snd (_next_message_id s)).
 Proof. exact C10Tie.next_message_id_is_source. Qed.
 Print Assumptions C10_next_message_id_is_source.
+
+(* ---- round 7 *)
+(* the model's internal-error outputs (_retransmit KeyError, _continue_backlog AssertionError; with round 6's on_timeout KeyError: every
+   LoopException output) are unreachable from the initial state under every event history (Proofs/C10R7.v, invariant XI) *)
+From Verif Require Import Proofs.C10R7.
+Theorem C10_exchange_invariant : forall es m0 t0 s os, run (init m0 t0) es = (s, os) -> XI s.
+Proof. exact exchange_invariant. Qed.
+Print Assumptions C10_exchange_invariant.
+Theorem C10_retransmit_keyerror_unreachable : forall es m0 t0 s os t r m to c, run (init m0 t0) es = (s, os) ->
+  next_timer s = Some (false, t) -> kind t = Retransmit r m to c ->
+  (exists mon, aget zz_eqb (exch s) (rpeer r, mid m) = Some (mon, tid t)) /\ amem Z.eqb (backlogs s) (rpeer r) = true /\
+  forall e, ~ In (LoopException e) (snd (step s Fire)).
+Proof. exact retransmit_keyerror_unreachable. Qed.
+Print Assumptions C10_retransmit_keyerror_unreachable.
+Theorem C10_continue_backlog_assertion_unreachable : forall es m0 t0 s os, run (init m0 t0) es = (s, os) ->
+  (forall p M v, aget zz_eqb (exch s) (p, M) = Some v -> aget Z.eqb (backlogs s) p <> None) /\
+  (forall r m e, ~ In (LoopException e) (snd (_remove_exchange s r m))) /\
+  (forall r m e, ~ In (LoopException e) (snd (step s (Recv r m)))).
+Proof. exact continue_backlog_assertion_unreachable. Qed.
+Print Assumptions C10_continue_backlog_assertion_unreachable.
+Theorem C10_no_loop_exception : forall es m0 t0 s os, run (init m0 t0) es = (s, os) -> forall e, ~ In (LoopException e) (outputs_of os).
+Proof. exact no_loop_exception. Qed.
+Print Assumptions C10_no_loop_exception.
+Theorem C10_one_exchange_per_peer : forall es m0 t0 s os p M M', run (init m0 t0) es = (s, os) ->
+  aget zz_eqb (exch s) (p, M) <> None -> aget zz_eqb (exch s) (p, M') <> None -> M = M'.
+Proof. exact one_exchange_per_peer. Qed.
+Print Assumptions C10_one_exchange_per_peer.
